@@ -73,7 +73,7 @@ theorem sumRh_filter {st0 : Strm} {ss : List Strm} (hnd : (ss.map (·.sid)).Nodu
       simp [List.filter_cons, hx]; omega
 
 /-- per-stream part: within the stream limit, buffer below `highest_offset` -/
-def SR (s : Strm) : Prop := s.recv.highest ≤ s.maxLocal ∧ RecvOK s.recv
+def SR (s : Strm) : Prop := s.recv.highest ≤ s.maxLocal ∧ RecvOK s.recv ∧ FinOK s.recv
 
 structure RInv (c : Conn) : Prop where
   fixed : c.quirks.resetKeepsHighest = false
@@ -128,7 +128,7 @@ theorem RInv.add {c c' : Conn} (h : RInv c) (hq : c'.quirks = c.quirks) {st : St
     rcases List.mem_append.mp hms with hms | hms
     · exact h.strm s hms
     · simp at hms; subst hms
-      exact ⟨by rw [hr]; exact Nat.zero_le _, by rw [hr]; exact RecvOK.init⟩
+      exact ⟨by rw [hr]; exact Nat.zero_le _, by rw [hr]; exact ⟨RecvOK.init, by simp [FinOK]⟩⟩
 
 theorem RInv.mapStreams {c : Conn} (h : RInv c) (g : Strm → Strm)
     (hg : ∀ s, (g s).sid = s.sid ∧ (g s).recv = s.recv ∧ (g s).maxLocal = s.maxLocal)
